@@ -204,3 +204,14 @@ func (e *Engine) checkClosureOnly(key string, allowed []string) (bool, string) {
 	}
 	return true, fmt.Sprintf("only reachable from %v", allowed)
 }
+
+// sourceFieldName: the struct field a value was loaded from ("" if it is not a direct field load).
+func sourceFieldName(v ssa.Value) string {
+	if u, ok := v.(*ssa.UnOp); ok {
+		if fa, ok := u.X.(*ssa.FieldAddr); ok {
+			st := unalias(fa.X.Type()).Underlying().(*types.Pointer).Elem().Underlying().(*types.Struct)
+			return st.Field(fa.Field).Name()
+		}
+	}
+	return ""
+}
